@@ -356,6 +356,10 @@ class Executor(ExprMixin):
         normal = st.add(*[z3.Not(c) for c in conds]) if conds else st
         if not feasible(normal):
             return outs
+        # exceptions the callee's contract leaves unspecified may be raised from any state that satisfies no
+        # `raises` condition (over-approximation: the caller must cope with them)
+        for exc in sorted(con.free_exceptions):
+            outs.append(Flow('exc', normal, exc))
         post = normal.copy()
         post.marks = pre.marks
         for f in con.modifies:
